@@ -355,8 +355,18 @@ def feature_counts(cases):
                     inc('empty primitive')
         for k in ('lights', 'cameras', 'effects', 'images', 'materials', 'controllers', 'animations', 'nodes', 'scenes'):
             inc(k, len(d[k]))
+        def special(t):
+            return t.lower().lstrip('+-') in ('nan', 'inf', 'infinity') or t in ('1e39', '-1e39', '1e-46', '-1e-45', '1e-40')
         for cam in d['cameras']:
             inc('camera with %d parameters' % len(cam['params']))
+            if any(special(t) for _n, t in cam['params']) or special(cam['znear']) or special(cam['zfar']):
+                inc('camera parameter NaN/INF/denormal/out of range')
+        for L in d['lights']:
+            if any(special(t) for t in L['color']) or any(special(t) for _n, t in L['params']):
+                inc('light parameter NaN/INF/denormal/out of range')
+        for e in d['effects']:
+            if any(v[0] == 'color' and any(special(t) for t in v[1]) or v[0] == 'float' and special(v[1]) for _n, v in e['props']):
+                inc('effect parameter NaN/INF/denormal/out of range')
         for L in d['lights']:
             inc('light ' + L['kind'])
 
@@ -364,6 +374,8 @@ def feature_counts(cases):
             for it in n['items']:
                 if it['t'] == 'transform':
                     inc('transform ' + it['kind'])
+                    if any(special(t) for t in it['tokens']):
+                        inc('transform parameter NaN/INF/denormal/out of range')
                 elif it['t'] == 'node':
                     inc('nested node')
                     walk(it['node'])
